@@ -719,6 +719,16 @@ func srcSide(r *mon.Run) {
 				r.Count("src_transient_error_absorbed_without_loss", 1)
 				return
 			}
+			if j.at == len(j.f.file) && j.kind.err == io.ErrUnexpectedEOF && res.ReadErr == io.EOF && bytes.Equal(res.Plain, j.f.pt) {
+				// the source delivered EVERY byte of the file and then said
+				// io.ErrUnexpectedEOF instead of io.EOF: that is the very value
+				// io.ReadFull itself produces for the short final chunk, the
+				// reader cannot tell the two apart, and the complete true
+				// plaintext was released: the end of the data, not a failure
+				// inside it
+				r.Count("src_unexpected_eof_value_after_the_last_byte_is_the_end", 1)
+				return
+			}
 			if res.ReadErr == io.EOF || res.ReadErr == nil {
 				r.Violate(fmt.Sprintf("src-clean-eof:armor=%v:%s:%s", j.f.armored, region, j.kind.name),
 					fmt.Sprintf("%s: the source failed but decryption ended cleanly after %d bytes", name, len(res.Plain)), replay)
